@@ -111,6 +111,7 @@ package election
 //@   loop 2 invariant yesVotes.validators.cache.weights == el.validators.cache.weights && yesVotes.validators.cache.indexes == el.validators.cache.indexes && yesVotes.validators.cache.totalWeight == el.validators.cache.totalWeight && yesVotes.validators.values == el.validators.values
 //@   loop 2 invariant noVotes.validators.cache.weights == el.validators.cache.weights && noVotes.validators.cache.indexes == el.validators.cache.indexes && noVotes.validators.cache.totalWeight == el.validators.cache.totalWeight && noVotes.validators.values == el.validators.values
 //@   loop 2 invariant allVotes.validators.cache.weights == el.validators.cache.weights && allVotes.validators.cache.indexes == el.validators.cache.indexes && allVotes.validators.values == el.validators.values
+//@   loop 2 hint assert forall(i, 0, len(el.validators.values), i != el.validators.cache.indexes[_range[_k - 1].Slot.Validator] ==> yesVotes.already[i] == iterold(yesVotes.already[i]) && noVotes.already[i] == iterold(noVotes.already[i]) && allVotes.already[i] == iterold(allVotes.already[i]))
 //@   loop 2 invariant forall(i, 0, len(el.validators.values), (yesVotes.already[i] ==> allVotes.already[i]) && (noVotes.already[i] ==> allVotes.already[i]))
 //@   loop 2 invariant yesVotes.sum == ysumL(el, old(el.votes), observedRoots, validatorSubject, _k) && noVotes.sum == nsumL(el, old(el.votes), observedRoots, validatorSubject, _k)
 //@   loop 2 invariant yesVotes != noVotes && yesVotes != allVotes && noVotes != allVotes && arrof(yesVotes.already) != arrof(noVotes.already) && arrof(yesVotes.already) != arrof(allVotes.already) && arrof(noVotes.already) != arrof(allVotes.already)
